@@ -10,10 +10,12 @@ import (
 	"encoding/json"
 	"fmt"
 	"os"
+	"path/filepath"
 	"runtime"
 	"runtime/debug"
 	"strings"
 	"sync"
+	"syscall"
 	"testing"
 	"time"
 
@@ -94,6 +96,7 @@ func serve(raw json.RawMessage) json.RawMessage {
 	guardOnce.Do(func() {
 		memoryGuard()
 		debug.SetGCPercent(50)
+		redirectStderr()
 	})
 	var j job
 	if err := json.Unmarshal(raw, &j); err != nil {
@@ -126,6 +129,54 @@ func serve(raw json.RawMessage) json.RawMessage {
 		b, _ = json.Marshal(jobResult{Note: "cannot encode result: " + err.Error()})
 	}
 	return b
+}
+
+// redirectStderr points fd 2 of the worker at a file chosen by the parent, so that the *head* of a Go
+// crash report (reason and innermost frames) survives; the harness keeps only the last 8 KB of the pipe.
+func redirectStderr() {
+	path := os.Getenv("C02_STDERR")
+	if path == "" {
+		return
+	}
+	f, err := os.OpenFile(path, os.O_CREATE|os.O_WRONLY|os.O_TRUNC, 0o644)
+	if err != nil {
+		return
+	}
+	_ = syscall.Dup2(int(f.Fd()), 2)
+}
+
+// crashHead extracts reason and the first otto frames from a crash report file.
+func crashHead(path string) string {
+	b, err := os.ReadFile(path)
+	if err != nil || len(b) == 0 {
+		return ""
+	}
+	if len(b) > 1<<20 {
+		b = b[:1<<20]
+	}
+	var reason []string
+	var frames []string
+	for _, line := range strings.Split(string(b), "\n") {
+		t := strings.TrimSpace(line)
+		switch {
+		case strings.HasPrefix(t, "fatal error:"), strings.HasPrefix(t, "panic:"), strings.HasPrefix(t, "runtime: goroutine stack exceeds"):
+			if len(reason) < 3 {
+				reason = append(reason, t)
+			}
+		case strings.HasPrefix(t, "github.com/robertkrimen/otto") && len(frames) < 12:
+			if i := strings.LastIndex(t, "("); i > 0 {
+				t = t[:i]
+			}
+			t = strings.TrimPrefix(t, "github.com/robertkrimen/otto")
+			if len(frames) == 0 || frames[len(frames)-1] != t {
+				frames = append(frames, t)
+			}
+		}
+	}
+	if len(reason) == 0 {
+		return ""
+	}
+	return strings.Join(reason, "; ") + " | innermost frames: " + strings.Join(frames, " < ")
 }
 
 // journal: 8 bytes at offset 0 = index of the sub-call about to run (read by the parent after a death).
@@ -174,6 +225,13 @@ func guard(fn func()) (panicked bool, budget bool, text string) {
 				budget = true
 				return
 			}
+			// otto wraps interrupt panics in an unexported type while they unwind; some entry points
+			// (Otto.Call, Value.Export …) let the wrapper out. It is still the host's own panic.
+			if fmt.Sprintf("%T", p) == "otto.interruptPanic" { // the only interrupt function on these runtimes is the budget
+				budget = true
+				wrappedSentinels++
+				return
+			}
 			panicked = true
 			text = describePanic(p)
 		}
@@ -181,6 +239,8 @@ func guard(fn func()) (panicked bool, budget bool, text string) {
 	fn()
 	return
 }
+
+var wrappedSentinels int
 
 func describePanic(p interface{}) string {
 	s := fmt.Sprintf("%T: %v", p, p)
@@ -217,14 +277,19 @@ const watchdog = 40 * time.Second // against an expected < 100 ms (the machine i
 
 type workerPool struct {
 	mu   sync.Mutex
-	free []*harness.Worker
+	free []*pworker
 	n    int
 	max  int
 }
 
+type pworker struct {
+	w      *harness.Worker
+	stderr string
+}
+
 var pool = &workerPool{max: 4}
 
-func (p *workerPool) get() *harness.Worker {
+func (p *workerPool) get() *pworker {
 	p.mu.Lock()
 	defer p.mu.Unlock()
 	if n := len(p.free); n > 0 {
@@ -233,10 +298,11 @@ func (p *workerPool) get() *harness.Worker {
 		return w
 	}
 	p.n++
-	return harness.NewWorker("c02")
+	path := filepath.Join(os.TempDir(), fmt.Sprintf("c02-stderr-%d-%d", os.Getpid(), p.n))
+	return &pworker{w: harness.NewWorker("c02", "C02_STDERR="+path), stderr: path}
 }
 
-func (p *workerPool) put(w *harness.Worker) {
+func (p *workerPool) put(w *pworker) {
 	p.mu.Lock()
 	defer p.mu.Unlock()
 	p.free = append(p.free, w)
@@ -262,7 +328,13 @@ func dispatch(j job) (res jobResult, fatal string) {
 	defer pool.put(w)
 	var first string
 	for attempt := 0; attempt < 2; attempt++ {
-		resp, st, detail := w.Do(j, watchdog)
+		_ = os.Truncate(w.stderr, 0)
+		resp, st, detail := w.w.Do(j, watchdog)
+		if st != harness.WorkerOK {
+			if h := crashHead(w.stderr); h != "" {
+				detail = h
+			}
+		}
 		switch st {
 		case harness.WorkerOK:
 			if err := json.Unmarshal(resp, &res); err != nil {
